@@ -19,7 +19,8 @@ RULE = (
     "with NaN cells and all-NaN pixels, min and max measures, invalid_disparity in {-9999, 0, NaN, 'NaN', a value of "
     "the axis, 1e6}, optional confidence bands and arbitrary documented flag bits. Non-trivial = the volume has at "
     "least one pixel with a tie for the best cost, one all-NaN pixel and one regular pixel; distinct = distinct "
-    "canonical payload."
+    "canonical payload. Pipeline twin: cost volumes as delivered by real matching-cost / cbca / confidence steps (incl. "
+    "99-102 pixel images), left and right, judged by the same reference."
 )
 ASSUMPTIONS = [
     "costs are finite float32 or NaN (what matching cost / aggregation deliver); no +-inf costs are generated",
